@@ -2,7 +2,7 @@
 """Generates /verif/MANIFEST.json from the table below (single source of truth)."""
 import json, sys
 
-HOOK_COMMITS = ["99d9b59", "b32f351", "81bce45", "bd0de94"]
+HOOK_COMMITS = ["99d9b59", "b32f351", "81bce45", "bd0de94", "85d1c03"]
 
 WALK_NOTE = ("Trusted base: the reference model refchess (validated against the published perft tables at the start "
              "of every run), the binding layer (public API only), rustc. Bounded: only the listed seeds/families/depths; "
@@ -64,8 +64,8 @@ CHECKS.update({
 
 CHECKS.update({
  "C09": dict(tech="stateless model checking of the real rayon search tasks under a controlled scheduler with iterative preemption bounding",
-   text="For each configuration (position, depth, empty or warmed cache) the real alpha_beta_search runs inside its own rayon pool with every root task parked at each shared-cache read / store; all schedules with at most p preemptions (p = 1 quick, 2 thorough on the small ones) and all / deviation-bounded task orders are enumerated by re-execution; the (move, score) outcome must be unique, no schedule may panic or hang, and free-running pools of 1,2,3,8,16,64 threads must give the same outcome.",
-   ref="DESIGN.md §3.7, §4 C09", note="Granularity is one shared-cache operation (not individual lock acquisitions). In reduced configurations only operations on keys touched by two tasks are choice points (classification iterated to a fixpoint; validated against the all-points mode on the small configurations). Determinism of the harness is checked by replaying the default schedule twice per configuration."),
+   text="For each configuration (position, depth, empty or warmed cache) the real alpha_beta_search runs inside its own rayon pool with every root task parked at each shared-cache read / store; all schedules with at most p preemptions (p = 1 quick, 2 thorough on the small ones) and all / deviation-bounded task orders are enumerated by re-execution; the exploration starts from the index order, the reverse order and every rotation of the task order; the (move, score) outcome must be unique, no schedule may panic or hang, and free-running pools of 1,2,3,8,16,64 threads must give the same outcome. Lock granularity: a Promela model generated from the lock shapes observed on the real search is explored exhaustively by spin for deadlocks (writer- and reader-preferring locks).",
+   ref="DESIGN.md §3.7, §3.7b, §4 C09", note="On the code itself the granularity is one shared-cache operation; individual lock acquisitions are explored on the generated model only. In reduced configurations only operations on keys touched by two tasks are choice points (classification iterated to a fixpoint; validated against the all-points mode on the small configurations). Determinism of the harness is checked by replaying the default schedule twice per configuration."),
 })
 
 CHECKS.update({
@@ -120,7 +120,7 @@ def main():
             "add_only": True,
         },
         "engines": [{"name": "mc", "path": "/verif/mc", "serves_properties": sorted(CHECKS.keys()),
-                     "kind_free_text": "hand-rolled explicit-state / stateless explorer in Rust linking the real chess crate; reference model refchess explored in lock-step; controlled scheduler for the rayon search tasks"}],
+                     "kind_free_text": "hand-rolled explicit-state / stateless explorer in Rust linking the real chess crate; reference model refchess explored in lock-step; controlled scheduler for the rayon search tasks; spin on a Promela model generated from observed lock traces (C09)"}],
         "checks": checks,
         "not_applicable": na,
         "notes": "All verdicts come from exhaustive enumeration of a stated bounded space (see DESIGN.md). known_findings.json lists genuine defects (fixed ones suppress nothing).",
